@@ -248,6 +248,50 @@ fn gen_comment_file(lang: &str, rng: &mut Rng, eol: &str) -> GenFile {
                 g.construct("javadoc-inline-tag-wrapped");
                 last_was_comment = true;
             }
+            7 | 8 | 9 if !matches!(lang, "python" | "javascript" | "typescript" | "javascriptreact" | "typescriptreact" | "java" | "go") || (lang == "go" && rng.chance(1, 3)) => {
+                // a doc example in a comment group: between the ``` lines everything is code, whatever it looks like
+                // (a reStructuredText underline of tildes, a line of the other fence kind, a nested shorter fence)
+                if last_was_comment {
+                    stmt(&mut g, rng, &mut n_stmt);
+                }
+                let leader = *rng.pick(sx.line);
+                let ind = indent(rng);
+                g.raw(ind);
+                g.raw(leader);
+                g.raw(" ");
+                g.prose(rng, "line-comment-before-fence", 2, 5, (1, 3));
+                g.raw(eol);
+                g.raw(ind);
+                g.raw(leader);
+                g.raw(" ");
+                g.seg(Role::Optional, "comment-fence-open", *rng.pick(&["```", "```text", "```rust", "````"]));
+                g.raw(eol);
+                for li in 0..rng.range(1, 4) {
+                    g.raw(ind);
+                    g.raw(leader);
+                    g.raw(" ");
+                    let body = match (li, rng.below(4)) {
+                        (0, _) | (_, 0) => GenFile::junk(rng, "`~", (1, 3)),
+                        (_, 1) => (*rng.pick(&["~~~", "~~~~~~", "~~~ zxqv", "~~~~ wrold ~~~~"])).to_string(),
+                        (_, 2) => format!("{} {}", GenFile::junk(rng, "`~", (1, 2)), rng.pick(&["teh wrold", "recieve valeu", "h\u{00E9}llo zxqv"])),
+                        _ => (*rng.pick(&["== zxqv ==", "-----", "$ qwrtz --xqzzy", "> zxqv"])).to_string(),
+                    };
+                    g.seg(Role::NonProse, "comment-fence-body", &body);
+                    g.raw(eol);
+                }
+                g.raw(ind);
+                g.raw(leader);
+                g.raw(" ");
+                g.seg(Role::Optional, "comment-fence-close", "```");
+                g.raw(eol);
+                g.raw(ind);
+                g.raw(leader);
+                g.raw(" ");
+                g.prose(rng, "line-comment-after-fence", 2, 5, (1, 2));
+                g.raw(eol);
+                g.construct("comment-code-fence");
+                last_was_comment = true;
+            }
             7 if lang == "python" => {
                 let st = g.n;
                 g.raw("def f():");
